@@ -145,8 +145,10 @@ func opBaseFee(pc *uint64, interpreter *EVMInterpreter, callContext *callCtx) ([
 }
 
 func opBlobHash(pc *uint64, interpreter *EVMInterpreter, scope *callCtx) ([]byte, error) {
+	// this chain carries no blob transactions: every index is out of range and yields zero
+	// (SetBytes32 of an empty slice indexes past its end and panics the host)
 	index := scope.stack.peek()
-	index.SetBytes32([]byte{})
+	index.Clear()
 	return nil, nil
 }
 
